@@ -394,6 +394,11 @@ func (d *Docs) keyFor(typeName string) string {
 			return v.S
 		}
 	}
+	if t.Root.Kind == model.KString && len(t.Root.Rules) == 0 {
+		if ex, ok := model.Unquote(t.Root.Lit); ok {
+			return ex // a string type without rules admits its example only
+		}
+	}
 	v := d.scalarWithin(t.Root)
 	if v.K == model.VStr {
 		return v.S
